@@ -54,6 +54,10 @@ Lemma fold_left_map_ (A B C : Type) (f : A -> B -> A) (g : C -> B) l : forall a,
   fold_left f (map g l) a = fold_left (fun a x => f a (g x)) l a.
 Proof. induction l as [|x l IH]; intros a; [reflexivity|]. cbn [map fold_left]. apply IH. Qed.
 
+Lemma fold_left_ext_ (A B : Type) (f g : A -> B -> A) : (forall a x, f a x = g a x) ->
+  forall l a, fold_left f l a = fold_left g l a.
+Proof. intros H. induction l as [|x l IH]; intros a; [reflexivity|]. cbn [fold_left]. rewrite H. apply IH. Qed.
+
 Lemma sha1_rounds_sim Wspec W : (forall j, (j < 80)%nat -> nth j W 0 = nth j Wspec 0) ->
   forall n i v, (i + n <= 80)%nat -> length v = 5%nat ->
   fold_left (fun s t => c1_rnd sha1_kinds_spec s (t / 20) t (nth t W 0)) (seq i n) (rotv5 (i mod 5) v) =
@@ -168,5 +172,73 @@ Proof.
   pose proof (sha1_rounds_sim (f1_schedule block) W HW 80 0 st (le_n _) Hst) as H.
   change (0 mod 5)%nat with 0%nat in H. change ((0 + 80) mod 5)%nat with 0%nat in H.
   rewrite !rotv5_0 in H. rewrite <- H.
-  apply fold_left_ext_in_. intros s t Ht. rewrite !Nat2N.id. reflexivity.
+  apply fold_left_ext_. intros s t. rewrite !Nat2N.id. reflexivity.
+Qed.
+
+(* ================= streaming ================= *)
+Lemma f1_compress_length st block : length st = 5%nat -> length (f1_compress st block) = 5%nat.
+Proof.
+  intros H. unfold f1_compress. rewrite map2_length.
+  assert (forall n i v, length v = 5%nat ->
+            length (fold_left (fun v t => f1_round v t (nth t (f1_schedule block) 0)) (seq i n) v) = 5%nat) as HL.
+  { induction n as [|n IH]; intros i v Hv; cbn [seq fold_left]; [exact Hv|].
+    apply IH, f1_round_length, Hv. }
+  rewrite HL by exact H. rewrite H. reflexivity.
+Qed.
+
+Lemma sha1_enc hi lo : hi < M32 -> lo < M32 ->
+  be32enc_vect (if true then [hi; lo] else [lo; hi]) = be64enc (hi * M32 + lo).
+Proof.
+  intros _ Hlo. rewrite be64enc_halves by exact Hlo. unfold be32enc_vect. cbn [flat_map].
+  rewrite app_nil_r. reflexivity.
+Qed.
+
+Definition upd1 := c32_update T_sha1 true 3 29 63 64.
+Definition fin1 := c32_final T_sha1 be32enc_vect H0_1 PAD_spec32 true 56 120 3 29 63 64.
+Definition init1 := c32_init H0_1 true.
+Definition buf1 := c32_buf_oneshot T_sha1 be32enc_vect H0_1 PAD_spec32 true 56 120 3 29 63 64.
+
+Definition SHA1_resume (st : list N) (bits : N) (buf d : list N) : list N :=
+  be32enc_vect (md_resume f1_compress be64enc st bits buf d).
+
+(* streaming from ANY well-formed context *)
+Theorem sha1_resume_correct c parts : wf32 5 true c ->
+  fst (fin1 (fold_left upd1 parts c)) =
+  SHA1_resume (c32_state c) (c32_count0 c * M32 + c32_count1 c) (c32_buf c) (concat parts).
+Proof.
+  intros H. unfold fin1, upd1, SHA1_resume.
+  apply (md32_resume_correct T_sha1 f1_compress 5 be32enc_vect be64enc H0_1 true
+           sha1_enc be64enc_length sha1_transform_eq_compress f1_compress_length c parts H).
+Qed.
+
+Lemma wf32_init1 : wf32 5 true init1.
+Proof. repeat split; try reflexivity. Qed.
+
+(* M3 for SHA-1 *)
+Theorem sha1_streaming_correct_all parts :
+  fst (fin1 (fold_left upd1 parts init1)) = SHA1_spec (concat parts).
+Proof. rewrite sha1_resume_correct by apply wf32_init1. reflexivity. Qed.
+
+Theorem sha1_streaming_correct parts :
+  8 * N.of_nat (length (concat parts)) < 18446744073709551616 ->
+  fst (fin1 (fold_left upd1 parts init1)) = SHA1_spec (concat parts).
+Proof. intros _. apply sha1_streaming_correct_all. Qed.
+
+Theorem sha1_oneshot_correct m : buf1 m = SHA1_spec m.
+Proof.
+  unfold buf1, c32_buf_oneshot. fold fin1 init1.
+  change (c32_update T_sha1 true 3 29 63 64 init1 m) with (fold_left upd1 [m] init1).
+  rewrite sha1_streaming_correct_all. cbn [concat]. rewrite app_nil_r. reflexivity.
+Qed.
+
+Theorem sha1_final_zeroes_ctx c : c32_is_zero (snd (fin1 c)) = true.
+Proof. reflexivity. Qed.
+
+Lemma SHA1_spec_length m : length (SHA1_spec m) = 20%nat.
+Proof.
+  unfold SHA1_spec, md_hash. rewrite be32enc_vect_length.
+  assert (forall bs st, length st = 5%nat -> length (fold_left f1_compress bs st) = 5%nat) as H.
+  { induction bs as [|b bs IH]; intros st Hst; [exact Hst|]. cbn [fold_left].
+    apply IH, f1_compress_length, Hst. }
+  rewrite H by reflexivity. reflexivity.
 Qed.
